@@ -33,6 +33,7 @@ from nucs.solvers import consistency_algorithms as CA  # noqa: E402
 from nucs.solvers.backtrack_solver import BacktrackSolver  # noqa: E402
 
 from vlib.catalogue import ALG_ATTR  # noqa: E402
+from vlib.run import engine_direct  # noqa: E402
 
 INTERPRETED = bool(os.environ.get("NUMBA_DISABLE_JIT"))
 
@@ -65,7 +66,7 @@ def compute_domains(type_name, box, params):
     """One filtering call of the shipped propagator on a copy of the box.  Returns (status, new_box)."""
     dom = np.array(box, dtype=np.int32).reshape((-1, 2))
     par = np.array(params, dtype=np.int32)
-    status = P.COMPUTE_DOMAINS_FCTS[ALG[type_name]](dom, par)
+    status = engine_direct(P.COMPUTE_DOMAINS_FCTS[ALG[type_name]], dom, par)
     return int(status), [[int(a), int(b)] for a, b in dom]
 
 
